@@ -90,6 +90,12 @@ Lemma mark_syncing_data c s : inv c s ->
   last_online s' = last_online s /\ now s' = now s.
 Proof. intros H. unfold mark_syncing. destruct (status s); cbn; repeat split; reflexivity. Qed.
 
+Lemma not_ready_inv c s : inv c s -> inv c (not_ready s).
+Proof.
+  intros H. inv_parts H. unfold inv, not_ready; cbn.
+  repeat split; intros; try discriminate; try congruence; try lia.
+Qed.
+
 Lemma init_all_inv c modes s :
   0 <= c_stale c -> inv c s ->
   inv c (fst (init_all c modes s)) /\
@@ -99,6 +105,7 @@ Proof.
   pose proof (do_query_inv c modes (set_last_update (now s) s) (set_last_update_inv c _ s H)) as H1.
   destruct (do_query c modes (set_last_update (now s) s)) as [s1 ok]. cbn [fst] in H1.
   destruct ok; cbn [fst snd]; [|split; [exact H1|discriminate]].
+  destruct (env_ready s1); cbn [fst snd]; [|split; [apply not_ready_inv; exact H1|discriminate]].
   inv_parts H1. unfold inv, synced, reset_errors, store_data, mark_syncing.
   destruct (status s1); cbn; repeat split; intros; try discriminate; try congruence; try lia.
 Qed.
@@ -112,6 +119,7 @@ Proof.
   pose proof (do_query_inv c modes s H) as H1.
   destruct (do_query c modes s) as [s1 ok]. cbn [fst] in H1.
   destruct ok; cbn [fst snd]; [|split; [exact H1|discriminate]].
+  destruct (negb (env_ready s1)); cbn [fst snd]; [split; [exact H1|discriminate]|].
   destruct (negb (Nat.eqb (core_seen s1) (env_core s1))); cbn [fst snd]; [split; [exact H1|discriminate]|].
   rewrite Hf. cbn [andb]. destruct (has_data s1) eqn:Hd; cbn [negb fst snd].
   - destruct (reset_inv c s1 Hs H1 Hd) as [Hi Hsy]. split; [exact Hi|]. intros _. exact Hsy.
@@ -188,6 +196,7 @@ Proof.
   - apply pass_inv; assumption.
   - apply client_query_inv; assumption.
   - exact H.
+  - exact H.
 Qed.
 
 Lemma run_inv c modes evs :
@@ -207,7 +216,7 @@ Definition frame (s s' : st) : Prop :=
   main_restart s' = main_restart s /\ last_update s' = last_update s /\
   last_online s' = last_online s /\ last_sync s' = last_sync s /\
   core_seen s' = core_seen s /\ dset_seen s' = dset_seen s /\
-  env_core s' = env_core s /\ env_dset s' = env_dset s.
+  env_core s' = env_core s /\ env_dset s' = env_dset s /\ env_ready s' = env_ready s.
 
 Lemma frame_refl s : frame s s.
 Proof. unfold frame; repeat split; reflexivity. Qed.
@@ -327,37 +336,49 @@ Proof.
 Qed.
 
 Lemma init_all_recovers c modes s :
+  env_ready s = true ->
   snd (do_query c modes (set_last_update (now s) s)) = true ->
   snd (init_all c modes s) = true.
-Proof. unfold init_all. destruct (do_query c modes (set_last_update (now s) s)) as [s1 ok]. cbn. intros ->. reflexivity. Qed.
+Proof.
+  intros Hr. unfold init_all.
+  pose proof (do_query_frame c modes (set_last_update (now s) s)) as Hfr.
+  destruct (do_query c modes (set_last_update (now s) s)) as [s1 ok]. cbn [fst snd] in *. intros ->.
+  assert (Hr1 : env_ready s1 = true).
+  { unfold frame in Hfr. decompose [and] Hfr. cbn in *. congruence. }
+  rewrite Hr1. reflexivity.
+Qed.
 
 (** a due periodicUpdate whose first query is answered brings the peer up with
     fresh data and a cleared error *)
 Lemma periodic_recovery c modes s :
-  (0 < c_nsrc c)%nat -> 0 <= c_stale c -> c_fixed c = true -> inv c s ->
+  (0 < c_nsrc c)%nat -> 0 <= c_stale c -> c_fixed c = true -> inv c s -> env_ready s = true ->
   let s1 := update_idle c s in
   last_update s + (if idling s1 then c_idle_int c else c_upd c) <= now s ->
   snd (do_query c modes (set_last_update (now s) s1)) = true ->
   synced (periodic c modes false s).
 Proof.
-  intros Hn Hs Hf Hi s1 Hdue Hok. unfold periodic. fold s1.
+  intros Hn Hs Hf Hi Hrd s1 Hdue Hok. unfold periodic. fold s1.
   rewrite andb_false_r. cbn [andb negb].
   assert (Hnow : now s1 = now s) by (unfold s1, update_idle; destruct (_ && _); reflexivity).
   rewrite Hnow. destruct (now s <? last_update s + _) eqn:Hlt; [apply Z.ltb_lt in Hlt; lia|].
   set (s2 := set_last_update (now s) s1) in *.
   assert (Hi2 : inv c s2) by (apply update_idle_inv; exact Hi).
+  assert (Hrd2 : env_ready s2 = true) by (unfold s2, s1, update_idle; destruct (_ && _); exact Hrd).
   assert (Hinit : synced (fst (init_all c modes s2))).
-  { apply init_all_inv; [assumption|assumption|]. apply init_all_recovers.
+  { apply init_all_inv; [assumption|assumption|]. apply init_all_recovers; [exact Hrd2|].
     replace (set_last_update (now s2) s2) with s2; [exact Hok|]. unfold s2, set_last_update; cbn. rewrite Hnow. reflexivity. }
   assert (Hdelta : synced (after_update c modes (update_delta c modes s2))).
   { unfold after_update. destruct (update_delta_inv c modes s2 Hs Hf Hi2) as [Hi3 Hsy].
     unfold update_delta in *. pose proof (do_query_ok_addr c modes s2 Hok) as Haddr.
     pose proof (do_query_inv c modes s2 Hi2) as Hi4.
+    pose proof (do_query_frame c modes s2) as Hfr3.
     destruct (do_query c modes s2) as [s3 ok] eqn:Hq. cbn [fst snd] in *. subst ok.
+    assert (Hrd3 : env_ready s3 = true) by (unfold frame in Hfr3; decompose [and] Hfr3; congruence).
     assert (Hre : synced (fst (init_all c modes s3))).
-    { apply init_all_inv; [assumption|assumption|]. apply init_all_recovers.
+    { apply init_all_inv; [assumption|assumption|]. apply init_all_recovers; [exact Hrd3|].
       assert (Hm : mode_of modes (addr (set_last_update (now s3) s3)) = MOk) by exact Haddr.
       rewrite (do_query_ok_again c modes _ Hn Hm). reflexivity. }
+    rewrite Hrd3 in *. cbn [negb] in *.
     destruct (negb (Nat.eqb (core_seen s3) (env_core s3))); cbn [fst snd] in *; [exact Hre|].
     rewrite Hf in *. cbn [andb] in *. destruct (has_data s3) eqn:Hd; cbn [negb fst snd] in *.
     - apply Hsy; reflexivity.
@@ -401,7 +422,8 @@ Lemma update_delta_frame_idle c modes s :
 Proof.
   unfold update_delta. pose proof (do_query_frame c modes s) as (A & B & C & _).
   destruct (do_query c modes s) as [s1 ok]. cbn [fst] in *.
-  destruct ok; [|auto]. destruct (negb (Nat.eqb (core_seen s1) (env_core s1))); [cbn; auto|].
+  destruct ok; [|auto]. destruct (negb (env_ready s1)); [cbn; auto|].
+  destruct (negb (Nat.eqb (core_seen s1) (env_core s1))); [cbn; auto|].
   destruct (c_fixed c && negb (has_data s1)); cbn; auto.
 Qed.
 
@@ -651,11 +673,12 @@ Lemma thm_recovery_clears c modes evs :
   let s := snd (run c modes evs) in
   let modes' := fst (run c modes evs) in
   let s1 := update_idle c s in
+  env_ready s = true ->
   last_update s + (if idling s1 then c_idle_int c else c_upd c) <= now s ->
   snd (do_query c modes' (set_last_update (now s) s1)) = true ->
   synced (periodic c modes' false s).
 Proof.
-  intros (Hs & Hf & Hev) Hn s modes' s1 Hdue Hok. apply periodic_recovery; try assumption.
+  intros (Hs & Hf & Hev) Hn s modes' s1 Hrd Hdue Hok. apply periodic_recovery; try assumption.
   apply run_inv; assumption.
 Qed.
 
